@@ -913,7 +913,18 @@ def replay_group(prog, alts, root, bindir, trace=None, log_mode=None, jflag=None
                 extras.append({'REDO_KEEP_GOING': '1'} if c['keep'] else {})
             offs = [0.0, 0.004, -0.004, 0.02, -0.02, 0.06, -0.06, 0.15, -0.15, 0.001, -0.001]
             offset = offs[(kill_seed + i) % len(offs)]
-            res = pj.run_pair(argvs, cwds, extras, offset, timeout=cmd_timeout)
+            # under controlled scheduling the processes of both commands stop at every gate (their start-up commits
+            # included: which of the two gets the lower run id is the scheduler's choice too)
+            ser = Serializer(os.path.join(root, 'sgate%d' % i), sched_seed * 1000 + i) if sched_seed is not None else None
+            if ser:
+                extras = [dict(e, **ser.env()) for e in extras]
+                offset = 0.0
+            try:
+                res = pj.run_pair(argvs, cwds, extras, offset, timeout=cmd_timeout)
+            finally:
+                if ser:
+                    ser.close()
+                    entry['gates_scheduled'] = ser.released
             snap = pj.snapshot()
             common_diffs = []
             for k in (0, 1):
